@@ -25,7 +25,7 @@ import (
 	"time"
 
 	"verifharness/core"
-	_ "verifharness/props"
+	"verifharness/props"
 )
 
 func verifRoot() string {
@@ -43,6 +43,14 @@ func main() {
 	log.SetOutput(io.Discard) // the package under test logs through the std logger under ContinueOnError
 	if len(os.Args) >= 2 && os.Args[1] == "--worker" {
 		workerMain(os.Args[2:])
+		return
+	}
+	if len(os.Args) >= 3 && os.Args[1] == "--expand" {
+		props.DebugExpand(os.Args[2], len(os.Args) > 3)
+		return
+	}
+	if len(os.Args) >= 3 && os.Args[1] == "--shrink" {
+		props.Shrink(os.Args[2])
 		return
 	}
 	if len(os.Args) < 3 {
@@ -433,7 +441,11 @@ func supervise(p *core.Property, tier string) int {
 		fmt.Fprintln(os.Stderr, "cannot write evidence:", err)
 		return 3
 	}
-	for _, s := range agg.inconcl {
+	for i, s := range agg.inconcl {
+		if i >= 8 {
+			fmt.Printf("  (%d more inconclusive notes in the evidence file)\n", len(agg.inconcl)-i)
+			break
+		}
 		if exit == 2 {
 			fmt.Printf("INCONCLUSIVE property=%s reason=%s\n", p.ID, s)
 		}
